@@ -78,7 +78,10 @@ Proof.
     destruct (IH t Ht) as [t0 [H0 [H1 [H2 H3]]]]. exists t0. repeat split; auto.
   - apply command_spec in Hin. destruct Hin as [t [Ht [->|[_ ->]]]]; [auto|].
     destruct (IH t Ht) as [t0 [H0 [H1 [H2 H3]]]]. exists t0. repeat split; auto.
-  - apply kill_sub in Hin. auto.
+  - apply kill_from in Hin. destruct Hin as [t [Ht [E1 [E2 [E3 E4]]]]].
+    destruct (IH t Ht) as [t0 [H0 [H1 [H2 H3]]]]. exists t0.
+    split; [exact H0|]. split; [congruence|]. split; [congruence|].
+    destruct H3 as [H3|H3]; [left|right]; congruence.
   - apply cleanup_sub in Hin. auto.
 Qed.
 
